@@ -17,7 +17,7 @@ def hx(b):
 class C13(Prop):
     id = "C13"
     title = "Input framing ignores packet boundaries and survives any byte stream"
-    lean_modules = ["NV.C13.Props", "NV.C13.Witness", "NV.C13.Negative", "NV.C13.TableTie", "NV.C13.XTable", "NV.C13.Lemmas18", "NV.C13.Lemmas19"]
+    lean_modules = ["NV.C13.Props", "NV.C13.Witness", "NV.C13.Negative", "NV.C13.TableTie", "NV.C13.XTable", "NV.C13.Lemmas18", "NV.C13.Lemmas19", "NV.C13.Lemmas20"]
     theorems = ["NV.C13.ts_layout", "NV.C13.sb_array_has_room", "NV.C13.sb_in_bounds", "NV.C13.copy_chars_expansion",
                 "NV.C13.buffer_writes_in_bounds", "NV.C13.space_rule_sufficient", "NV.C13.space_rule_numbers",
                 "NV.C13.input_never_overflows", "NV.C13.segmentation_independent",
@@ -32,7 +32,8 @@ class C13(Prop):
                 "NV.C13.consoleLines_eq_cmdsOf", "NV.C13.statement_order_tie",
                 "NV.C13.cc_table_tie", "NV.C13.cc_table_states", "NV.C13.cc_table_total", "NV.C13.cc_table_no_crash", "NV.C13.edit_bytes_tie", "NV.C13.x_table_tie", "NV.C13.x_table_complete",
                 "NV.C13.reframeLoop_len", "NV.C13.reframe_N", "NV.C13.setCall_N", "NV.C13.endInput_N",
-                "NV.C13.reframe_is_line_framing", "NV.C13.getUserData_evok", "NV.C13.run_events_safe"]
+                "NV.C13.reframe_is_line_framing", "NV.C13.getUserData_evok", "NV.C13.run_events_safe",
+                "NV.C13.reframe_exact", "NV.C13.typeahead_lines_after_mode_end", "NV.C13.workerChunks_len", "NV.C13.doWpipe_rinv"]
     witness_theorems = ["NV.C13.sb_terminator_overflows_exact_array", "NV.C13.ayt_returns_to_data",
                         "NV.C13.full_sb_payload_is_not_text", "NV.C13.ascii_spec_example",
                         "NV.C13.burst_check", "NV.C13.telnet_lines_delivered_Full_false"]
@@ -67,13 +68,15 @@ class C13(Prop):
                  "constants, the get_user_data space rule, statement orders and the COMPLETE transition table of copy_chars "
                  "(state x byte -> state, actions; obtained by running the real function on every byte in every decoder "
                  "configuration) regenerated from the source, with Lean bridging lemmas + model/implementation "
-                 "correspondence on the real get_user_data/copy_chars/get_user_command/set_call/call_function_interactive")
+                 "correspondence on the real get_user_data/copy_chars/get_user_command/set_call/call_function_interactive/"
+                 "console_worker_proc_posix/process_io")
     level_text = ("Lean 4 theorems about an executable model of src/comm.c input framing (copy_chars telnet decoder, "
                   "get_user_data space rule/compaction/discard, PORT_ASCII and PORT_BINARY paths, first/next_cmd_in_buf, "
-                  "telnet_neg editing, add_console_line, get_char()/input_to() mode switches with set_telnet_single_char, "
+                  "telnet_neg editing, add_console_line, the console worker's read/terminate/enqueue step, get_char()/input_to() mode switches with set_telnet_single_char, "
                   "reframe_single_char_input and NOECHO) for all byte streams and all read/extract/mode-switch schedules; "
                   "tied to the source by regenerated constants, guard numbers, statement orders, the exhaustive copy_chars "
-                  "transition table (29 184 transitions compared in Lean) and the editing/terminator byte sets, and by "
+                  "transition table (29 184 transitions compared in Lean), the small-scope exhaustive table of cmd_in_buf/"
+                  "first_cmd_in_buf/next_cmd_in_buf (2046 configurations) and the editing/terminator byte sets, and by "
                   "running the real functions and the model on the same streams under exhaustive 2-splits and random "
                   "k-splits; the Lean oracle judges every real trace; its crash/index/ask/line-length clauses are a theorem "
                   "on model traces (run_events_safe)")
@@ -101,7 +104,8 @@ class C13(Prop):
                    "the `!` shell escape of process_user_command (WAS_SINGLE_CHAR), snooping, ed, termios / console get_char",
                    "what the LPC user object does with the line after process_input",
                    "Windows IOCP completion path of get_user_data (evt != NULL); recv() errno paths other than EWOULDBLOCK",
-                   "console worker thread / queue (blobs of any size are generated instead)"]
+                   "console worker: thread scheduling, select() timeouts, queue overflow policy (the worker procedure, the line "
+                   "queue and the process_io console branch are run for real, single-threaded, one read per blob)"]
 
     # ---- tie: numbers that are not header constants ---------------------
     def gen_extra(self, ctx, bdir):
